@@ -6,7 +6,7 @@ EXPLANATION = ("C19: cnl::sqrt is executed symbolically (both loops unrolled pat
                "termination within digits/2+2 iterations) for every non-negative value of the type and the result r is "
                "proved to satisfy 0 <= r, r*r <= x < (r+1)*(r+1); elastic_integer results fit the halved digit count, "
                "scaled_integer results carry exponent E/2 (emitted constant).")
-BOUNDS = {"quick": "T in {u8,i8,u16,i16,u32,i32}; elastic_integer<D> D in {7,8,15,16,31}; scaled_integer<i16/i32, power<E>> even E in {-60..60 step 12}",
+BOUNDS = {"quick": "T in {u8,i8,u16,i16,u32,i32}; elastic_integer<D> D in {7,8,15,16,31} and narrowest types int8_t/int16_t/uint8_t narrower than the root; scaled_integer<i16/i32, power<E>> even E in {-60..60 step 12}",
           "thorough": "adds u64/i64 (INT encoding attempt under the cap) and all even exponents step 4"}
 
 
@@ -30,8 +30,8 @@ def mk(name, T):
                   unwind=n + 4, max_paths=70000, desc="sqrt(%s)" % T, tags={"T": T}, timeout=60)
 
 
-def mk_elastic(name, D):
-    T = "cnl::elastic_integer<%d>" % D
+def mk_elastic(name, D, NT="int"):
+    T = "cnl::elastic_integer<%d, %s>" % (D, NT)
     at = "i32" if D <= 31 else "i64"
     decl = "using {n}_Res = decltype(cnl::sqrt(std::declval<%s>()));\n" % T
     body = "    return static_cast<%s>(cnl::unwrap(cnl::sqrt(verif::mk<%s>(a))));" % (cpp(at), T)
@@ -48,7 +48,7 @@ def mk_elastic(name, D):
                 ("fits-result-digits", r <= (1 << env.c["digits"]) - 1)]
     return Kernel(name, [("a", at)], at, body.replace("{n}", name), decls=decl.replace("{n}", name),
                   consts={k: v.replace("{n}", name) for k, v in consts.items()}, mode="bv", W=2 * bits(at) + 6, pre=pre,
-                  claims=claims, unwind=bits(at) + 4, max_paths=70000, desc="sqrt(elastic_integer<%d>)" % D, tags={"D": D}, timeout=60)
+                  claims=claims, unwind=bits(at) + 4, max_paths=70000, desc="sqrt(elastic_integer<%d,%s>)" % (D, NT), tags={"D": D, "NT": NT}, timeout=60)
 
 
 def mk_scaled(name, T, E):
@@ -79,6 +79,9 @@ def kernels(opts):
         ks.append(mk("K%d" % len(ks), T))
     for D in (7, 8, 15, 16, 31):
         ks.append(mk_elastic("K%d" % len(ks), D))
+    # narrowest types narrower than the root (the root's rep is wider than Narrowest)
+    for (D, NT) in ((15, "std::int8_t"), (31, "std::int16_t"), (16, "std::uint8_t"), (31, "std::int8_t")) + (((63, "int"), (62, "std::int16_t")) if tier != "quick" else ()):
+        ks.append(mk_elastic("K%d" % len(ks), D, NT))
     for E in range(-60, 61, 12 if tier == "quick" else 4):
         ks.append(mk_scaled("K%d" % len(ks), "i16" if (E // 4) % 2 else "i32", E))
     return ks
